@@ -799,6 +799,8 @@ def _flat_fields(v, n, what):
                 x = to_sc(x, "R", n)
             if isinstance(x, Static) and x.v is None:
                 continue
+            if isinstance(x, Obj) and isinstance(x.fields.get("@name"), Sc):
+                x = x.fields["@name"]          # an object that stands for an opaque value (it keeps its methods, see below)
             if not isinstance(x, Sc):
                 fail(n, f"{what}: field {k} is not a scalar value")
             out.append((k, x))
@@ -816,7 +818,13 @@ def _p_filter_scan(ex, n, args, kwargs):
     d = ex.depth
     cf = _flat_fields(init, n, "scan carry")
     names = [f"c{i}__{d}" for i in range(len(cf))]
-    carry = Obj({k: Sc(v.ty, nm) for (k, v), nm in zip(cf, names)}, getattr(init, "name", "carry")) if isinstance(init, Obj) else Sc(cf[0][1].ty, names[0])
+    def like(k, sc_new):
+        """a carried field that was an object-with-a-name keeps its methods around the new value"""
+        old = init.fields.get(k) if isinstance(init, Obj) else None
+        if isinstance(old, Obj) and "@name" in old.fields:
+            return Obj({**old.fields, "@name": sc_new}, old.name)
+        return sc_new
+    carry = Obj({k: like(k, Sc(v.ty, nm)) for (k, v), nm in zip(cf, names)}, getattr(init, "name", "carry")) if isinstance(init, Obj) else Sc(cf[0][1].ty, names[0])
     if isinstance(init, Obj):
         for k, v in init.fields.items():      # static (None) fields are carried as they are
             if k not in carry.fields:
@@ -835,7 +843,7 @@ def _p_filter_scan(ex, n, args, kwargs):
     def proj(i, m, of):
         vs = [f"p{j}__" for j in range(m)]
         return f"(let '{_tuple_term(vs)} := {of} in {vs[i]})"
-    fin = {k: Sc(v.ty, proj(i, len(cf), f"(fst {T})")) for i, (k, v) in enumerate(cf)}
+    fin = {k: like(k, Sc(v.ty, proj(i, len(cf), f"(fst {T})"))) for i, (k, v) in enumerate(cf)}
     final = Obj(dict(getattr(init, "fields", {}), **fin), getattr(init, "name", "carry")) if isinstance(init, Obj) else fin[""]
     if not o2:
         return (final, Static(None))
